@@ -148,6 +148,14 @@ def strategy(draw):
     avg = draw(st.one_of(st.integers(100, 2000), st.integers(100, 50000), st.sampled_from([1000, 5000, 20000, 150000])))
     mn = draw(st.one_of(st.none(), st.just(0), st.integers(1, max(1, (3 * avg) // 4 - 2)), st.integers(1, avg)))
     tavg = draw(st.one_of(st.integers(20, 3000), st.sampled_from([200 / 0.75, 100, 267])))
+    if access is not None and mn and draw(st.integers(0, 2)) == 0:
+        # two accessible stretches on an untargeted canonical contig whose off-target runs measure exactly the minimum
+        # size and one base less: the first must be binned, the second must not (a >= / > slip at the minimum)
+        free = [c for c in canon if c not in {r[0] for r in access}]
+        if free:
+            access.append([free[0], 5000, 5000 + mn + 2 * PAD])
+            access.append([free[0], 9000 + mn + 2 * PAD, 9000 + 2 * mn + 4 * PAD - 1])
+            access.sort(key=lambda r: (_order(style, r[0]), r[1], r[2]))
     return {"style": style, "baits": baits, "access": access, "avg": avg, "min": mn, "tavg": tavg,
             "split": draw(st.booleans()), "short": draw(st.booleans()), "annotate": draw(st.integers(0, 3)) == 0,
             "anti_from_split": draw(st.booleans())}
